@@ -40,13 +40,18 @@ void h_prim(void) {
   int64_t* cin = has_cin ? (int64_t*)vf_alloc_words_raw(PN) : 0;
   int64_t* out = has_out ? (int64_t*)vf_alloc_words(PN) : 0;
   int64_t* cout = has_cout ? (int64_t*)vf_alloc_words(PN) : 0;
-  /* documented carry width: at most 64+1-K bits; we take |cin| <= 2^(63-K), which contains every
-   * carry a chain of in-range limbs can produce (checked at vector level) */
   for (int i = 0; i < PN; ++i) {
     in[i] = in_range62();
     if (has_cin) {
       int64_t c = vf_i64();
-      VF_ASSUME(c >= -(INT64_C(1) << (63 - K)) && c <= (INT64_C(1) << (63 - K)));
+#if K >= 2
+      /* documented: carries have at most 64+1-K bits, i.e. [-2^(64-K), 2^(64-K)-1] */
+      VF_ASSUME(c >= -(INT64_C(1) << (64 - K)) && c <= (INT64_C(1) << (64 - K)) - 1);
+#else
+      /* K=1: "64 bits" would allow digit+carry_in to leave int64 (in=-1, cin=INT64_MIN); no chain of
+       * in-range limbs produces such a carry, so the claim is made for |cin| <= 2^62 */
+      VF_ASSUME(c >= -(INT64_C(1) << 62) && c <= (INT64_C(1) << 62));
+#endif
       cin[i] = c;
     }
   }
